@@ -38,6 +38,12 @@ theorem fields_spec (u : Bytes) (h : IsUuidBytes u) :
     u.getD 9 0 = Spec.Uuid.dceDomain (beNat u) ∧ beNat (u.take 4) = Spec.Uuid.dceId (beNat u) :=
   Lemmas.Uuid.fields_spec u h
 
+/-- a DCE (version 2) UUID: the clock sequence is the 6 bits below the variant (the low octet is the domain) and
+    the timestamp has no time_low part (that field is the local identifier) -/
+theorem fields_v2_spec (u : Bytes) (h : IsUuidBytes u) :
+    clockSeqV2 u = Spec.Uuid.clockSeqV2 (beNat u) ∧ timeV2 u = Spec.Uuid.tsV2 (beNat u) :=
+  Lemmas.Uuid.fields_v2_spec u h
+
 /-- the displayed calendar date is exact: converting it back gives the day number, for every day -/
 theorem civil_roundtrip (z : Int) :
     Civil.daysFromCivil (Civil.civilFromDays z).1 (Civil.civilFromDays z).2.1 (Civil.civilFromDays z).2.2 = z ∧
@@ -54,6 +60,12 @@ example : (uuidValue (strBytes "1EC9414C-232A-6B00-B3C8-9F6BDECED846")).toOption
 /-- A.6 v7: 017F22E2-79B0-7CC3-98C4-DC0C0C07398F, same instant -/
 example : (uuidValue (strBytes "017F22E2-79B0-7CC3-98C4-DC0C0C07398F")).toOption.bind (·.findAttr "Time (UTC)")
     = some (strBytes "2022-02-22 19:22:22") := by decide
+/-- B.1 v8: 2489E9AD-2EE2-8E00-8EC9-32D5F69181C0 -/
+example : (uuidValue (strBytes "2489E9AD-2EE2-8E00-8EC9-32D5F69181C0")).toOption.map (·.desc)
+    = some (strBytes "UUID v8 (custom)") := by decide
+/-- a DCE UUID: domain Group (1), clock sequence 10, identifier 1000 -/
+example : (uuidValue (strBytes "000003e8-0000-21ef-8a01-0123456789ab")).toOption.bind (·.findAttr "Clock sequence")
+    = some (strBytes "10") := by decide
 example : (uuidValue (strBytes "ffffffff-ffff-ffff-ffff-ffffffffffff")).toOption.map (·.desc)
     = some (strBytes "UUID (Max UUID)") := by decide
 /-- a 38-byte text whose first/last characters are not braces is not a UUID (defect D32 before the fix) -/
